@@ -15,6 +15,8 @@ Line protocol of engine `ledger` (C09).
   or a different delta gives `bad-event…` / `mismatch…`.
 * `ledger ep <entry point> <args>` — class of a canonical history of the entry point under the
   generated site flags: `clean`, `leak`, `foreign`, `leak+foreign`.
+* `ledger cq <cap0> <pushes>` — the IR command queue from its first allocation through `pushes` pushes to
+  `free`: `a=<allocs> f=<frees> live=<n> caps=<c0+c1+…> loc=<n> ok=<0|1>`.
 * `ledger log <ev>…` — the spec-side judge on a raw allocator log (`A<a>.<n>`, `F<via>.<a>.<n>`,
   `D<a>.<n>`): `owed=… foreign=… dropped=… double=… unknown=…`.
 -/
@@ -189,8 +191,27 @@ def handleLog (args : List String) : String :=
     let j := judge evs
     s!"owed={j.live.length} foreign={j.foreign} dropped={j.dropped} double={j.double} unknown={j.unknown + j.realloc}"
 
+/-- `ledger cq <cap0> <pushes>`: the IR command queue from its first allocation (`cap0` slots) through
+    `pushes` pushes to `free`: allocations, frees, the sequence of capacities, and whether `free` is `Ok` -/
+def handleCq (args : List String) : String :=
+  match args with
+  | [c, p] =>
+    let w0 : W := (W.init 0 5).acts [.alloc 0 .tmp 1]
+    let s := cqPushN (natArg p) (w0, ⟨natArg c, 0, false⟩)
+    let r := cqFree s
+    let j := judge r.1.log
+    -- capacities: cap0 doubled until the final capacity
+    let rec caps (fuel cur last : Nat) (acc : List Nat) : List Nat :=
+      match fuel with
+      | 0 => acc.reverse
+      | f + 1 => if cur ≥ last then (cur :: acc).reverse else caps f (cur * 2) last (cur :: acc)
+    let cs := if natArg c = 0 then [0] else caps 64 (natArg c) s.2.cap []
+    s!"a={j.allocs} f={j.frees} live={j.live.length} caps={"+".intercalate (cs.map toString)} loc={s.2.loc} ok={if r.2 then 1 else 0}"
+  | _ => "bad-op"
+
 def handle (args : List String) : String :=
   match args with
+  | "cq" :: rest => handleCq rest
   | "inst" :: rest => handleInst rest
   | "ep" :: rest => handleEp rest
   | "log" :: rest => handleLog rest
